@@ -118,6 +118,7 @@ def make_case(rng: Rng) -> Dict[str, Any]:
     if o.chance(0.2):
         extra += ['--project-version', '1.2.3', '--project-url', 'https://example.invalid/']
     cfg['extra'] = extra
+    cfg['roots_via'] = rng.sub('roots-via').weighted([('positional', 3), ('add-package', 1)])
     return cfg
 
 
@@ -145,7 +146,12 @@ def argv_for(cfg: Dict[str, Any], paths: List[str], out: str) -> List[str]:
         import datetime
         argv += ['--buildtime', datetime.datetime.utcfromtimestamp(cfg['epoch']).strftime('%Y-%m-%d %H:%M:%S')]
     argv += cfg['extra']
-    argv += paths
+    if cfg.get('roots_via') == 'add-package':
+        # the other documented way to name the sources (config files use it): one --add-package per root
+        for pth in paths:
+            argv += ['--add-package', pth]
+    else:
+        argv += paths
     return argv
 
 
